@@ -10,11 +10,15 @@
      - C20_born_tail: hence for a right-orthonormal state whose later sites are all measured, the whole tail of the
        probability train, every site summed out, is vec(I): the hypothesis of C20_marginal is discharged in that case;
      - C20_counts: the counts of np.unique add up to the number of samples (relative frequencies sum to one).
-   PARTIAL: the tail hypothesis in the presence of unmeasured sites (squeeze absorbs their transfer matrices) is covered by
-   correspondence and side check; convergence of the frequencies is the law of large numbers (6-sigma check, not a theorem). *)
+     - C20_prob_tails / C20_marginal_everywhere: for a right-orthonormal state and ANY set of measured sites, every proper tail
+       of the probability train squeeze(diag(state, measured)^H @ state), all sites summed out, is vec(I) (unmeasured sites
+       are traced out inside their mode-less cores, squeeze multiplies those into their neighbours and keeps the tails);
+       hence at every core of the train the sampler's number is the exact marginal: the hypothesis of C20_marginal is
+       discharged in general.
+   PARTIAL: convergence of the frequencies is the law of large numbers (6-sigma check, not a theorem). *)
 From Coq Require Import ZArith List Lia Arith.
 Import ListNotations.
-Require Import Ring Sums Matrix Core Chain TTOps Structure SweepProof Sampling SamplingProof.
+Require Import Ring Sums Matrix Core Chain TTOps Structure SweepProof Sampling SamplingProof SqueezeProof TailProof.
 Open Scope cr_scope.
 
 Theorem C20_marginal (R : cring) (c : core R) (rest : list (core R)) (theta : nat -> R) (x : nat) :
@@ -44,6 +48,25 @@ Theorem C20_born_tail (R : cring) (cs : list (core R)) b1 b2 :
 Proof. exact (born_tail_weight cs b1 b2). Qed.
 Print Assumptions C20_born_tail.
 
+(* the general case: any selection of measured sites *)
+Theorem C20_prob_tails (R : cring) (state : list (core R)) sel : length sel = length state ->
+  Forall (fun c => nd c = 1%nat) state -> Forall right_iso state -> linked state 1%nat -> Forall (fun c => (0 < rl c)%nat) state ->
+  tails_ok (prob_tt sel state).
+Proof. exact (prob_tt_tails_ok state sel). Qed.
+Print Assumptions C20_prob_tails.
+
+Theorem C20_marginal_everywhere (R : cring) (state : list (core R)) sel pre c rest (theta : nat -> R) (x : nat) :
+  length sel = length state ->
+  Forall (fun c => nd c = 1%nat) state -> Forall right_iso state -> linked state 1%nat -> Forall (fun c => (0 < rl c)%nat) state ->
+  prob_tt sel state = pre ++ c :: rest ->
+  sum (rl c) (fun a => theta a * ctmp c a x) =
+  msum (rows rest) (fun xs => sum (rl c) (fun a => theta a * chain (c :: rest) (x :: xs) (zeros (S (length rest))) a 0%nat)).
+Proof.
+  intros H1 H2 H3 H4 H5 E. apply marginal_step.
+  exact (prob_tt_tails_ok state sel H1 H2 H3 H4 H5 pre c rest E).
+Qed.
+Print Assumptions C20_marginal_everywhere.
+
 Theorem C20_counts (rows : list (list nat)) : total (unique_counts rows) = length rows.
 Proof. exact (counts_total rows). Qed.
 Print Assumptions C20_counts.
@@ -52,3 +75,20 @@ Print Assumptions C20_counts.
    and unique_counts on a concrete sample *)
 Example ex_counts : unique_counts [[1; 0]; [0; 1]; [1; 0]; [0; 0]]%nat = [([0; 0], 1); ([0; 1], 1); ([1; 0], 2)]%nat.
 Proof. vm_compute. reflexivity. Qed.
+
+(* non-vacuity of the general tail theorem: the product state |0> (x) i|1> (x) |1> over the Gaussian integers (exactly
+   right-orthonormal), the middle qubit unmeasured: the hypotheses hold, squeeze removes the unmeasured site, and the tail
+   behind the first core is vec(I) by computation as well *)
+Definition exq0 : core ZIring := @mkcore ZIring 1 2 1 1 (fun _ x _ _ => if Nat.eqb x 0 then (1, 0)%Z else (0, 0)%Z).
+Definition exq1 : core ZIring := @mkcore ZIring 1 2 1 1 (fun _ x _ _ => if Nat.eqb x 1 then (0, 1)%Z else (0, 0)%Z).
+Definition exq2 : core ZIring := @mkcore ZIring 1 2 1 1 (fun _ x _ _ => if Nat.eqb x 1 then (1, 0)%Z else (0, 0)%Z).
+Example ex_tail_hyps :
+  Forall (fun c => nd c = 1%nat) [exq0; exq1; exq2] /\ Forall (@right_iso ZIring) [exq0; exq1; exq2] /\ linked [exq0; exq1; exq2] 1%nat /\
+  Forall (fun c => (0 < rl c)%nat) [exq0; exq1; exq2] /\
+  length (prob_tt [true; false; true] [exq0; exq1; exq2]) = 2%nat /\
+  @tail_weight ZIring (tl (prob_tt [true; false; true] [exq0; exq1; exq2])) 0%nat = @vecI ZIring 1 0%nat.
+Proof.
+  split; [repeat constructor|]. split.
+  - repeat constructor; intros p q Hp Hq; destruct p as [|p]; destruct q as [|q]; try (cbn in *; lia); vm_compute; reflexivity.
+  - split; [cbn; lia|]. split; [repeat constructor; cbn; lia|]. split; vm_compute; reflexivity.
+Qed.
